@@ -60,8 +60,10 @@ CLAIMED = {
              "encoder (C06), exporter conservation (C12). Tie to the code on every session: model block bytes = library block bytes (bld), "
              "model reader dump = library reader dump and model writer bytes = library bytes (blk), Lean projection = the records the library "
              "reader returns (prjd), Model.ReadBlock on the bytes of every output = the records the library reader returns (rdq; also on rewritten, "
-             "foreign-writer and mutated files in C08/C18/C03); and the three-way differential with the independent Lean RFC 8618 reader and the reference expectation.",
-        note="What is proved is about the models: Model/Builder.lean, Model/Resolve.lean, Model/ReadBlock.lean, Model/Structs.lean are hand-written and tied to the "
+             "foreign-writer and mutated files in C08/C18/C03); and the three-way differential with the independent Lean RFC 8618 reader and the reference expectation. "
+             "block_schemas_match_source: the schema table of the twelve item/table-entry structs IS what translator T3 extracts on every run by RUNNING "
+             "the working tree's own write()/read() functions (keys, order, kind and width written, width the reader keeps of 2^64-1, members the reader insists on).",
+        note="What is proved is about the models: Model/Builder.lean, Model/Resolve.lean, Model/ReadBlock.lean are hand-written (Model/Structs.lean is re-checked against the T3 extraction) and tied to the "
              "code by the bld/blk/prjd/rdq correspondences on every session; the exporter's choice of block boundaries is C12's abstract model. "
              "Bounds of the theorems' domain: members within the C++ member widths, < 2^64 records, <= 2^32 entries per table, representable "
              "times. Trusted besides: RFC transcription, tools/refexp.py + cdnsgen.py, harness/file.cpp.",
@@ -87,7 +89,9 @@ CLAIMED = {
              "only if its hint bit is set; address events / malformed messages and their data table only when enabled), "
              "output_members_honour_hints (same on the raw value written), tables_reachable (every table entry is referred to by a stored "
              "record or another entry: nothing enters a table on behalf of a member that is not stored), tables_closed (every stored index "
-             "addresses an existing entry); hint bits = RFC 8618 and pairwise distinct (translator-regenerated). Tie: the block the model "
+             "addresses an existing entry); hint bits = RFC 8618 and pairwise distinct (translator-regenerated); hint_probes_match_projection: the RFC reading of the hints "
+             "(project) lets through exactly the members the working tree's own exporter+reader return for a full record under 77 configurations "
+             "(all bits, none, each bit cleared, each bit alone, per mask; translator T4 re-runs the probe on every run). Tie: the block the model "
              "builds + the model writer = the bytes of the block the library wrote for the same records and hints (bld driver, up to the "
              "hash-map order of the address-event array); plus the RFC projection via the independent Lean reader (single bit cleared/alone, "
              "random masks, unreachable = 0) and sessions editing hints in place through get_active_block_parameters_ref() before a rotation. Also several parameter sets switched back and forth between blocks, and application-built blocks written, cleared, refilled and written again.",
@@ -145,11 +149,13 @@ CLAIMED = {
         text="Lean 4: one generic interpreter of the struct write/read functions (Model/Schema) instantiated for FilePreamble -> BlockParameters -> "
              "StorageParameters -> StorageHints/CollectionParameters with keys regenerated from the source; theorems struct_roundtrip / "
              "preamble_roundtrip (read (write v) = v with nothing left over, for EVERY schema and conforming value, at any buffer offset via "
-             "runW_refines) and struct_output_wellformed; preamble keys = RFC 8618. The model reader/writer is tied to the code by writing random "
+             "runW_refines) and struct_output_wellformed; preamble keys = RFC 8618; preamble_schemas_match_source: the five preamble schemas ARE what translator T3 "
+             "extracts on every run by running the working tree's own write()/read() (keys, order, kind/width written, width kept by the reader, "
+             "mandatory members, and the library's own read-then-write reproduces the all-members bytes). The model reader/writer is tied to the code by writing random "
              "preambles (versions 0..255, optional private version, 1..8 parameter sets, every optional subset, full-width integers, empty/long "
              "lists, arbitrary text, collection parameters absent/empty/partial/full) with the library and comparing bytes with the model writer "
              "and values with the library reader, the model reader and the independent Lean reader, member for member. Parameter sets are also handed over through add_block_parameters (some objects twice: the caller's object must stay intact); max_block_items 0 and 2^32.",
-        note="Trusted: Model/Structs.lean schema table (member kinds, optionality) - checked only by the correspondence; harness records.h renders every member.",
+        note="Trusted: tools/t3_probe.cpp (the probe lists the members by name; kinds, keys, widths and optionality come from running the code); harness records.h renders every member.",
         technique="Lean 4 proof (generic schema round trip) + differential write/read against the model and an independent Lean reader", design="§4 C09"),
     "C11": dict(
         text="Lean 4 theorems over a model of BlockTable/KeyRef with explicit storage (any element type, any hash with HashOk): add_spec "
